@@ -322,3 +322,51 @@ package router
 //@   assigns \nothing
 //@   loop 0 invariant forall(k, 0, rangeindex + 1, slices[k] != sliceName)
 //@   ensures ret0 <==> exists(k, 0, len(slices), slices[k] == sliceName)
+
+// ---------------------------------------------------------------- C08 Mycat-compatible placement
+// PartitionByMod: |key| mod count (BigInteger.abs().mod()); PartitionByLong: segment[key & 1023]; PartitionByString: the Java
+// hashCode-style hash (h*31 + c) of the configured slice of the key, then segment[hash & 1023].
+//@ property C08: (*MycatPartitionModShard).FindForKey, (*MycatPartitionLongShard).FindForKey, stringHash, (*MycatPartitionStringShard).FindForKey
+//@ func (*MycatPartitionModShard).FindForKey
+//@   requires m != nil && m.ShardNum > 0
+//@   may-panic when true
+//@   assigns \nothing
+//@   ensures ret1 == nil && 0 <= ret0 && ret0 < m.ShardNum
+//@   ensures numVal(key) >= 0 ==> ret0 == numVal(key) % m.ShardNum
+//@   ensures numVal(key) < 0 ==> ret0 == (0 - numVal(key) % m.ShardNum)
+//@ func (*MycatPartitionLongShard).FindForKey
+//@   mode bv
+//@   requires m != nil && len(m.segment) == 1024
+//@   may-panic when true
+//@   assigns \nothing
+//@   ensures ret1 == nil && ret0 == m.segment[int(numVal(key)) & 1023]
+// Java: for (i = start; i < end; i++) h = (h << 5) - h + s.charAt(i), over the characters of the key (64-bit wrap-around)
+//@ pure jhash(s string, a int, i int) int64
+//@ axiom jhashEmpty for stringHash: forall(s string, forall(a int, jhash(s, a, a) == 0))
+//@ axiom jhashStep for stringHash: forall(s string, forall(a int, forall(i int, 0 <= a && a < i && i <= runeLen(s) ==> jhash(s, a, i) == jhash(s, a, i - 1) * 31 + int64(runeAt(s, i - 1)))))
+//@ pure clampLo(x int) int = ite(x < 0, 0, x)
+//@ pure clampHi(s string, x int) int = ite(x > runeLen(s), runeLen(s), x)
+//@ func stringHash
+//@   mode bv
+//@   requires -(1<<40) < start && start < 1<<40 && -(1<<40) < end && end < 1<<40
+//@   assigns \nothing
+//@   loop 0(i) invariant cur(start) == clampLo(start) && cur(end) == clampHi(s, end) && cur(start) <= i && (i <= cur(end) || i == cur(start)) && len(input) == runeLen(s) && forall(k, 0, len(input), input[k] == runeAt(s, k))
+//@   loop 0(i) invariant h == jhash(s, cur(start), i) && (i == cur(start) ==> h == 0)
+//@   ensures case hashed: clampLo(start) < clampHi(s, end) ==> ret0 == jhash(s, clampLo(start), clampHi(s, end))
+//@   ensures case empty:  clampLo(start) >= clampHi(s, end) ==> ret0 == 0
+//@ func GetString
+//@   may-panic when true
+//@   assigns \nothing
+//@   ensures typeis(value, string) ==> ret0 == unbox(value, string)
+// Mycat: start = hashSliceStart >= 0 ? hashSliceStart : key.length() + hashSliceStart; end = hashSliceEnd > 0 ? hashSliceEnd :
+// key.length() + hashSliceEnd, with key.length() the number of characters of the key
+//@ pure sliceLo(m *MycatPartitionStringShard, s string) int = ite(m.hashSliceStart >= 0, m.hashSliceStart, runeLen(s) + m.hashSliceStart)
+//@ pure sliceHi(m *MycatPartitionStringShard, s string) int = ite(m.hashSliceEnd > 0, m.hashSliceEnd, runeLen(s) + m.hashSliceEnd)
+//@ pure strHashS(s string, lo int, hi int) int64 = ite(clampLo(lo) < clampHi(s, hi), jhash(s, clampLo(lo), clampHi(s, hi)), 0)
+//@ func (*MycatPartitionStringShard).FindForKey
+//@   mode bv
+//@   requires m != nil && m.MycatPartitionLongShard != nil && len(m.MycatPartitionLongShard.segment) == 1024
+//@   requires -(1<<30) < m.hashSliceStart && m.hashSliceStart < 1<<30 && -(1<<30) < m.hashSliceEnd && m.hashSliceEnd < 1<<30
+//@   may-panic when true
+//@   assigns \nothing
+//@   ensures case placed: typeis(key, string) ==> ret1 == nil && ret0 == m.MycatPartitionLongShard.segment[int(strHashS(unbox(key, string), sliceLo(m, unbox(key, string)), sliceHi(m, unbox(key, string)))) & 1023]
